@@ -393,7 +393,18 @@ func genCase(r *hx.Rng, tier string, st *hx.Stats, informer bool) string {
 			if indexableHyp(old) && (!indexableHyp(p) || p.IP != old.IP) {
 				freed = old.IP
 			}
-			apply("u", p)
+			if !informer && old.IP != "" && r.Chance(1, 8) {
+				// the update is handled while a lookup of the pod's IP is in flight (between the
+				// provider's informer read and its memo write)
+				ops = append(ops, "x "+hx.S(old.IP)+" u "+encPod(p))
+				pods = append(pods, p)
+				sh.pods[key(p)] = p
+				sh.nextVer++
+				sh.version[key(p)] = sh.nextVer
+				hits["racing-lookup"] = true
+			} else {
+				apply("u", p)
+			}
 			lookupsAround(old.IP, p.IP)
 		case c < 88: // delete
 			tag := "d"
@@ -414,7 +425,12 @@ func genCase(r *hx.Rng, tier string, st *hx.Stats, informer bool) string {
 			}
 			k := hx.Pick(r, ks)
 			p := sh.pods[k]
-			ops = append(ops, tag+" "+encPod(p))
+			if !informer && p.IP != "" && r.Chance(1, 8) {
+				ops = append(ops, "x "+hx.S(p.IP)+" "+tag+" "+encPod(p))
+				hits["racing-lookup"] = true
+			} else {
+				ops = append(ops, tag+" "+encPod(p))
+			}
 			delete(sh.pods, k)
 			delete(sh.version, k)
 			hits["delete-"+tag] = true
